@@ -296,12 +296,16 @@ impl Vm {
 
     if_let_obj!(ObjectKind::Enumerator(mut enumerator) = (receiver) {
       self.update_ip(2);
+      let roots_before = self.gc.borrow().temp_roots();
       match enumerator.next(&mut Hooks::new(self)) {
         Call::Ok(value) => {
           self.fiber.peek_set(0, value);
           ExecutionSignal::Ok
         },
-        Call::Err(LyError::Err(error)) => self.set_error(error),
+        Call::Err(LyError::Err(error)) => {
+          self.release_abandoned_roots(roots_before);
+          self.set_error(error)
+        },
         Call::Err(LyError::Exit(code)) => self.set_exit(code),
       }
     } else {
